@@ -330,6 +330,16 @@ fn check_pair(a: &[u32], b: &[u32], id: u32, ctor: u8, stats: &mut Stats) -> Che
             stats.label("pair:few-ids-vs-65+-partly-contained");
         }
     }
+    {
+        // a heap-stored run of consecutive ids with exactly one hole, and the other operand holds the hole
+        let (small, large) = if sa.len() < sb.len() { (&sa, &sb) } else { (&sb, &sa) };
+        if large.len() > 30 {
+            let (lo, hi) = (*large.iter().next().unwrap(), *large.iter().next_back().unwrap());
+            if (hi - lo) as usize == large.len() && small.iter().any(|x| *x > lo && *x < hi && !large.contains(x)) {
+                stats.label("pair:run-with-one-hole-vs-the-hole");
+            }
+        }
+    }
     if nontrivial {
         stats.label("nontrivial");
         stats.nontrivial(hash_json(&(a, b, id)));
@@ -474,6 +484,33 @@ fn tiny_vs_large_strategy() -> impl Strategy<Value = Case> {
     })
 }
 
+/// A run of consecutive ids (20 - 120 of them, so both inline and heap-stored groups) with 0 - 3 holes, against a
+/// few ids: the holes themselves, members of the run, and ids just below / above it.
+fn run_with_holes_strategy() -> impl Strategy<Value = Case> {
+    (20usize..=120, prop_oneof![2 => 0u32..300, 1 => 9_999_800u32..9_999_870], vec(any::<u16>(), 0..=3), vec((any::<u16>(), 0u8..4), 1..6), any::<u16>(), (0u8..6, 0u8..6), any::<bool>()).prop_map(
+        |(n, start, hole_picks, few, idp, (c1, c2), swap)| {
+            let holes: Vec<u32> = hole_picks.iter().map(|p| start + 1 + pick(*p, n - 2) as u32).collect();
+            let large: Vec<u32> = (0..n as u32).map(|i| start + i).filter(|x| !holes.contains(x)).collect();
+            let small: Vec<u32> = few
+                .iter()
+                .map(|(p, what)| match what {
+                    0 if !holes.is_empty() => holes[pick(*p, holes.len())],
+                    1 => start.saturating_sub(1 + u32::from(*p % 3)),
+                    2 => start + n as u32 + u32::from(*p % 3),
+                    _ => large[pick(*p, large.len())],
+                })
+                .collect();
+            let ctor = [0u8, 1, 2, 3, 4, 6][c1 as usize] + 7 * [0u8, 1, 2, 3, 4, 6][c2 as usize];
+            let id = if idp % 2 == 0 && !holes.is_empty() { holes[0] } else { large[pick(idp, large.len())] };
+            if swap {
+                Case::Pair { a: small, b: large, id, ctor }
+            } else {
+                Case::Pair { a: large, b: small, id, ctor }
+            }
+        },
+    )
+}
+
 fn ops_strategy() -> impl Strategy<Value = Case> {
     // pool width chosen per case so that both small and >30 element sets arise
     (prop_oneof![Just(8usize), Just(40), Just(POOL_LEN)], vec((0u8..10, any::<u16>()), 0..120)).prop_map(|(width, raw)| {
@@ -559,6 +596,7 @@ fn strategy(tier: Tier) -> BoxedStrategy<Case> {
         3 => ops_strategy(),
         5 => pair_strategy(),
         1 => tiny_vs_large_strategy(),
+        1 => run_with_holes_strategy(),
         2 => gen::facts(cfg).prop_map(|facts| Case::Terms { facts }),
     ]
     .boxed()
@@ -569,7 +607,7 @@ impl Property for C12 {
         "C12"
     }
     fn rule(&self) -> String {
-        "Generated: (a) operation sequences over one HpoGroup (insert with return value, contains, get, clear, full well-formedness snapshot) with ids from a 96-entry pool (dense block, neighbours, 0, 9_999_999, 10^7, u32::MAX), up to 120 ops, sizes crossing the inline limit 30; (b) pairs of id multisets in the classes overlap / disjoint / nested / equal / one empty / equal length / unbalanced (one operand more than 4x longer, not nested), built through 7 constructors (From<Vec<u32>>, From<Vec<HpoTermId>>, From<HashSet>, FromIterator<HpoTermId>, FromIterator<HpoTerm>, with_capacity+insert, reversed insert) and pushed through every ownership variant of |, &, + id, | id; (c) all ordered pairs of terms of generated DAGs through the 8 ancestor-query methods, and the id-level ones for pairs whose terms come from two ontologies over the same ids (every other link dropped; every link reversed). Oracle: BTreeSet<u32>; every result must iterate strictly ascending, agree on len/is_empty/get/contains (also for neighbours of each element). evaluations = ops + operator results + ancestor queries. Non-trivial = an operand longer than 30, equal-length different operands, or a non-empty intersection smaller than both operands (pairs); op sequence reaching length > 30; DAG with a diamond. Distinct by hash of the case.".into()
+        "Generated: (a) operation sequences over one HpoGroup (insert with return value, contains, get, clear, full well-formedness snapshot) with ids from a 96-entry pool (dense block, neighbours, 0, 9_999_999, 10^7, u32::MAX), up to 120 ops, sizes crossing the inline limit 30; (b) pairs of id multisets - also a run of 20-120 consecutive ids with 0-3 holes against a few ids among which are the holes - in the classes overlap / disjoint / nested / equal / one empty / equal length / unbalanced (one operand more than 4x longer, not nested), built through 7 constructors (From<Vec<u32>>, From<Vec<HpoTermId>>, From<HashSet>, FromIterator<HpoTermId>, FromIterator<HpoTerm>, with_capacity+insert, reversed insert) and pushed through every ownership variant of |, &, + id, | id; (c) all ordered pairs of terms of generated DAGs through the 8 ancestor-query methods, and the id-level ones for pairs whose terms come from two ontologies over the same ids (every other link dropped; every link reversed). Oracle: BTreeSet<u32>; every result must iterate strictly ascending, agree on len/is_empty/get/contains (also for neighbours of each element). evaluations = ops + operator results + ancestor queries. Non-trivial = an operand longer than 30, equal-length different operands, or a non-empty intersection smaller than both operands (pairs); op sequence reaching length > 30; DAG with a diamond. Distinct by hash of the case.".into()
     }
     fn assumptions(&self) -> Vec<String> {
         vec![
@@ -583,7 +621,7 @@ impl Property for C12 {
         }
     }
     fn required_labels(&self, _tier: Tier) -> Vec<&'static str> {
-        vec!["nontrivial", "ops:len>30", "pair:operand>30", "pair:equal-length", "pair:unbalanced-not-nested", "pair:disjoint", "pair:nested", "pair:equal", "pair:empty-operand", "terms:diamond", "group>255-ids", "group>65535-ids", "pair:few-ids-vs-65+-partly-contained", "terms:pairs-across-two-ontologies", "terms:pairs-across-two-ontologies-with-reversed-hierarchy"]
+        vec!["nontrivial", "ops:len>30", "pair:operand>30", "pair:equal-length", "pair:unbalanced-not-nested", "pair:disjoint", "pair:nested", "pair:equal", "pair:empty-operand", "terms:diamond", "group>255-ids", "group>65535-ids", "pair:few-ids-vs-65+-partly-contained", "terms:pairs-across-two-ontologies", "terms:pairs-across-two-ontologies-with-reversed-hierarchy", "pair:run-with-one-hole-vs-the-hole"]
     }
     fn run_generated(&self, tier: Tier, seed: u64, n: u64, stats: &mut Stats) -> Option<(Value, Failure)> {
         run_typed(strategy(tier), seed, n, stats, check)
